@@ -55,11 +55,11 @@ def check_chain(pairs, w, delta, margin, what):
     p0_def = next((j for j in range(1, N) if S(0, j) >= delta + margin), None)
     if not pairs:
         # acceptable iff some allowed start has an empty chain
-        p0_pos = next((j for j in range(1, N) if S(0, j) >= delta - margin), None)
-        last_start = p0_pos if p0_pos is not None else 0
         if p0_def is None:
             return 0
-        for s in range(0, last_start + 1):
+        # the latest admissible start is the first pose that DEFINITELY reaches delta (an ambiguous earlier
+        # pose may legitimately be judged as not reaching it)
+        for s in range(0, p0_def + 1):
             if not any(S(s, j) >= delta + margin for j in range(s + 1, N)):
                 return 0
         raise Bad("chain_empty", "%s: no pairs returned although every admissible start reaches delta %r again" % (what, delta))
